@@ -1,6 +1,7 @@
 package engine
 
 import (
+	"fmt"
 	"os"
 	"path/filepath"
 	"sort"
@@ -28,6 +29,7 @@ type GenCfg struct {
 	Symlinks   bool // create symlinks ld0 -> d0, lf -> d0/<name>
 	MaxAdds    int
 	PPause     int // percent of burst operations followed by a consumer pause of 120-300 ms (delayed consumer)
+	PDot       int // percent of Add steps that watch the working directory itself under a spelling that cleans to "." (entries are then named "./entry")
 	PRecv      int // percent of operations in plugged bursts followed by a blocking receive of 1-3 events (the reader advances that far and parks again)
 	PLongPause int // percent of bursts in which the consumer stays away for 1.1 s (quick) / 1.1-2.5 s (thorough) after one operation
 	POps       int // percent of Adds that request a subset of the operations
@@ -558,6 +560,13 @@ func (g *Gen) apiStep(prologue bool) {
 		r = 0
 	}
 	switch {
+	case r < 50 && g.cfg.PDot > 0 && g.pct("adddot", g.cfg.PDot):
+		sp := g.pick("dotspelling", []string{".", "./", "d0/..", "./.", "u/../", ".//"})
+		g.fresh++
+		f := fmt.Sprintf("top-%d", g.fresh)
+		g.steps = append(g.steps, Step{K: KAdd, P: P(sp)},
+			Step{K: KCreate, P: P(f)}, Step{K: KWrite, P: P(f), N: 1}, Step{K: KRename, P: P(f), Q: P(f + "x")}, Step{K: KUnlink, P: P(f + "x")})
+		g.sync()
 	case r < 50: // Add
 		var cands []string
 		wf := g.cfg.WatchFiles
